@@ -149,3 +149,43 @@ Proof.
   - rewrite (sfold_cons_aside false (fst res) (rev K) Hnu), Hst. reflexivity.
   - cbn [cs_stack]. intros Hn. rewrite !above_from_num, <- ELn. exact (Hfin Hn).
 Qed.
+
+(* ------------------------------------------------------------------ both cases *)
+
+Lemma c07_seamless_cursor_proof : C07_seamless_cursor.
+Proof.
+  intros U c w ps merged_end canon forked cu L rest hc hf Hwfb Hlok Hhub Hchain Hincl merged Htip Hagr
+         Hmode Hcur Hfilter Hstop Hbundle Hbound Hfrom HL Hstate HhfU HXU res.
+  assert (Hfiles : (h_ready (w_hub w) = true -> forall evs, blocks_from_cursor (h_f (w_hub w)) cu <> BOk evs) ->
+            exists c', cons_fold_aside (mkCons (rev (hc ++ hf)) 0 false) (map as_new (fst res)) = Some c' /\
+              (snd res = JNil ->
+                 fst res = [] \/ rev (cs_stack c') = above (rn (cu_lib cu)) merged \/
+                 (exists r1 rest1, rest = r1 :: rest1 /\ from_num (bnum r1) (rev (cs_stack c')) = rest) \/
+                 above (rn (cu_lib cu)) (rev (cs_stack c')) = rest)).
+  { intros Hno.
+    destruct (c07_seamless_cursor_files_proof U c w ps merged_end canon forked cu L rest hc hf Hwfb Hlok Hhub Hchain Hincl Htip Hagr
+                Hmode Hcur Hfilter Hstop Hbundle Hbound Hno Hfrom HL Hstate) as (c' & Hfold & Hfin).
+    exists c'. split; [exact Hfold|]. intros Hn. destruct (Hfin Hn) as [H|[H|H]]; auto. }
+  destruct (h_ready (w_hub w)) eqn:Hrd; [|apply Hfiles; intros H; discriminate].
+  destruct (blocks_from_cursor (h_f (w_hub w)) cu) as [burst| | |] eqn:Eb;
+    [|apply Hfiles; intros _ evs; discriminate..].
+  (* the hub serves the cursor *)
+  pose proof (chain_ok_asc canon Hchain) as Hasc.
+  destruct (bref_eq _ _ HL) as [_ ELn].
+  assert (HLc : In L canon).
+  { assert (H : In L (from_num (rn (cu_lib cu)) canon)) by (rewrite Hfrom; left; reflexivity).
+    unfold from_num in H. apply filter_In in H as [H _]. exact H. }
+  destruct Hstate as (Hbr & Hon & Hoff & Hnu & Hu & _).
+  assert (Hcons : consumer_at U cu L (hc ++ hf)).
+  { split; [exact HL|]. split.
+    - apply Forall_app. split; [|exact HhfU]. eapply Forall_impl; [|exact Hon]. cbn beta. intros x Hx. apply Hincl. exact Hx.
+    - destruct (step_eqb (cu_step cu) SUndo) eqn:Es.
+      + assert (Est : cu_step cu = SUndo) by (destruct (cu_step cu); try discriminate; reflexivity).
+        right. split; [exact Est|]. destruct (HXU Est) as (X & H1 & H2 & H3). exists X. rewrite <- app_assoc. auto.
+      + assert (Est : cu_step cu <> SUndo) by (intros E; rewrite E in Es; discriminate).
+        left. split; [exact Est|]. split; [exact Hbr | exact (Hnu Est)]. }
+  destruct (c07_seamless_cursor_live_proof U c w ps merged_end canon forked cu L (hc ++ hf) burst Hwfb Hlok Hhub Hchain Hincl Htip
+              Hmode Hcur Hfilter Hstop HLc Hcons Hrd Eb) as (c' & Hfold & Hfin).
+  exists c'. split; [exact Hfold|]. intros Hn. right. right. right.
+  rewrite (Hfin Hn). exact (above_of_from_num canon (rn (cu_lib cu)) L rest Hasc Hfrom ELn).
+Qed.
